@@ -538,6 +538,14 @@ func buildCoverage(P *Program, R *Results, hs []string, cfg Config, tier string,
 		"counterexamples_confirmed": confirmed,
 		"counterexamples_unreproduced": unreproduced,
 		"init_warnings":            len(R.InitWarn),
+		"checker_cmd":              "bin/gosmt check " + strings.TrimPrefix(strings.SplitN(hs[0], "_", 3)[1], "") + " --tier " + tier,
+		"trusted_base": []string{
+			"golang.org/x/tools v0.29.0 go/packages + go/ssa (SSA of /repo's working tree, generics instantiated)",
+			"gosmt: this framework's symbolic executor for Go SSA and its term simplifier (cross-checked each run by replaying solver models of explored paths natively; `gosmt check SELF` for the library models)",
+			cfg.Solver + " (incremental, one process per worker; one-shot fallback on unknown; any (error line = inconclusive)",
+			"the environment model listed under stubs / assumptions (DESIGN.md §3, §13.2)",
+			"the reference models in /verif/harness (refjson, refIndent, sequence/map models), executed symbolically beside the real code",
+		},
 	}
 	return cov
 }
